@@ -1050,3 +1050,61 @@ func unconditionalSetterRule(p *engine.Prog, r *engine.Report, rule, setter, obj
 		r.Und(rule, objType+"."+objSetter+"|store of "+field, "", "store not found")
 	}
 }
+
+// undelegationsFlowRule: in every function that applies the identity-update steps of a block
+// (applyBlockOnState and its empty-block sibling), the undelegations returned by
+// applyDelegationSwitch are what switchPoolsToOffline is given — a pool emptied by an undelegation
+// goes offline in an empty identity-update block exactly as in a proposed one.
+func undelegationsFlowRule(p *engine.Prog, r *engine.Report, rule string) {
+	n := 0
+	for _, f := range funcsOfPkg(p, "blockchain") {
+		if f.Blocks == nil || isTestish(p.Pos(f.Pos())) {
+			continue
+		}
+		sw := callsTo(f, "blockchain.Blockchain.switchPoolsToOffline")
+		if len(sw) == 0 {
+			continue
+		}
+		for _, c := range sw {
+			n++
+			args := engine.CallArgs(c)
+			ok := false
+			for v := range engine.BackSlice(args[2], engine.DefaultSlice) {
+				if cc, isC := v.(*ssa.Call); isC && engine.CallIs(cc, "blockchain.Blockchain.applyDelegationSwitch") {
+					ok = true
+				}
+			}
+			r.Check(ok, rule, uniq(r, engine.RelName(f)+"|pools are switched offline with the undelegations of this very block"), p.InstrPos(c), "switchPoolsToOffline(appState, applyDelegationSwitch(…), block)", "switchPoolsToOffline is not given the undelegations that applyDelegationSwitch returned in "+engine.RelName(f)+": a pool whose last delegator's undelegation is flushed by this kind of block keeps its online flag although it is neither a pool nor validated any more")
+		}
+	}
+	r.Floor(rule, 2, "applyBlockOnState and applyEmptyBlockOnState")
+	_ = n
+}
+
+// everyElementWrittenRule: fn ranges over a collection and calls `callee` for each element; no
+// iteration reaches the next one (or the end of the loop) without that call — an index writer that
+// skips elements (already present, filtered …) leaves records of an abandoned branch in place.
+func everyElementWrittenRule(p *engine.Prog, r *engine.Report, rule, pkg, fn, callee, bad string) {
+	f := mustFunc(p, r, pkg, fn)
+	if f == nil {
+		return
+	}
+	r.Fn(engine.FuncName(f))
+	cs := callsTo(f, callee)
+	if len(cs) == 0 {
+		r.Bad(rule, fn+"|writes every element", p.Pos(f.Pos()), callee+" is not called")
+		return
+	}
+	c := cs[0]
+	hdr := enclosingLoopHeader(c.Block())
+	ok := hdr != nil
+	if hdr != nil {
+		reach := engine.ReachAvoiding(f, hdr, nil, map[*ssa.BasicBlock]bool{c.Block(): true})
+		for _, pr := range hdr.Preds {
+			if hdr.Dominates(pr) && pr != c.Block() && reach[pr] {
+				ok = false
+			}
+		}
+	}
+	r.Check(ok, rule, fn+"|every element is written", p.InstrPos(c), "no iteration bypasses "+callee, bad)
+}
